@@ -824,6 +824,23 @@ pub fn run(ctx: &Ctx) -> i32 {
         Ok(())
     });
     rep.add(out);
+    // the time budget at the command line: files made of text that is no token (every character its
+    // own diagnostic) - one to a line, and (while not a known finding) thousands on ONE line, where
+    // every diagnostic shows the whole line again
+    {
+        let mut cases: Vec<(&str, String)> = vec![("unlexable-characters.one-per-line", "?\n".repeat(3000)), ("unlexable-characters.short-lines", "?? @ ~\n".repeat(1500))];
+        if gates.want("MANY_UNLEXABLE_CHARACTERS_ON_ONE_LINE") {
+            cases.push(("unlexable-characters.16384-on-one-line", "?".repeat(16_384)));
+            cases.push(("unlexable-characters.65536-on-one-line", "?".repeat(65_535)));
+        }
+        let items: Vec<(&str, String, &str)> = cases.iter().flat_map(|(n, t)| ["tokenize", "check"].into_iter().map(move |c| (*n, t.clone(), c))).collect();
+        let out = run_items(&items, ctx.threads, |(name, text, cmd), stats| {
+            stats.case(true, hash_str(&format!("{}{}", cmd, name)));
+            stats.class(&format!("cli-budget.{}.{}", cmd, name));
+            cli_within_budget(cmd, text).map_err(|d| Failure::new("cli-budget", "over-budget", format!("{}: {}", name, d), json!({"kind": "cli_budget", "command": cmd, "text": text})))
+        });
+        rep.add(out);
+    }
     // thorough: coverage-guided campaign (libFuzzer) over the same in-target oracle
     if ctx.tier == Tier::Thorough && std::env::var("VERIF_NO_FUZZ").is_err() {
         fuzz_campaign(ctx, &mut rep);
@@ -948,7 +965,45 @@ fn fuzz_input_holds(bytes: &[u8]) -> Result<(), String> {
 }
 
 /// witness {"kind":"no_panic","text":..}
+/// CPU budget of one command-line invocation (seconds; the debug build of the pinned tree needs a few
+/// seconds for the linear cases)
+const CLI_CPU_BUDGET_S: u64 = 60;
+
+/// runs `ironplcc <cmd> <file>` with its output discarded under a CPU-time limit (RLIMIT_CPU, so machine
+/// load does not matter): Err when the limit ends it, or when it ends with the panic status
+pub fn cli_within_budget(cmd: &str, text: &str) -> Result<(), String> {
+    use std::os::unix::process::ExitStatusExt;
+    let dir = crate::drive::Scratch::new("c04b");
+    let p = dir.write("in.st", text.as_bytes());
+    let script = format!("ulimit -t {}; exec \"$0\" \"$@\"", CLI_CPU_BUDGET_S);
+    let st = Command::new("sh")
+        .arg("-c")
+        .arg(&script)
+        .arg(crate::drive::ironplcc())
+        .arg(cmd)
+        .arg(&p)
+        .env("RUST_BACKTRACE", "0")
+        .stdin(std::process::Stdio::null())
+        .stdout(std::process::Stdio::null())
+        .stderr(std::process::Stdio::null())
+        .status()
+        .map_err(|e| format!("spawn: {}", e))?;
+    match (st.code(), st.signal()) {
+        (Some(101), _) => Err(format!("`ironplcc {}` on {} bytes ends with the panic status", cmd, text.len())),
+        (Some(_), _) => Ok(()),
+        (None, Some(sig)) if sig == libc::SIGXCPU || sig == libc::SIGKILL => Err(format!("`ironplcc {}` on {} bytes was still running after {} s of CPU time", cmd, text.len(), CLI_CPU_BUDGET_S)),
+        (None, other) => Err(format!("`ironplcc {}` on {} bytes died by signal {:?}", cmd, text.len(), other)),
+    }
+}
+
 pub fn witness(w: &Value) -> Result<(), String> {
+    if w["kind"] == "cli_budget" {
+        let text = match w["text"].as_str() {
+            Some(t) => t.to_string(),
+            None => w["char"].as_str().unwrap_or("?").repeat(w["count"].as_u64().unwrap_or(1) as usize),
+        };
+        return cli_within_budget(w["command"].as_str().unwrap_or("tokenize"), &text);
+    }
     let text = w["text"].as_str().ok_or("no text")?;
     let mut wk = Worker::spawn();
     match wk.run(text) {
@@ -964,6 +1019,8 @@ pub fn replay(ctx: &Ctx, v: &Value) -> i32 {
     let r = if v["check"] == "fuzz" {
         let bytes: Vec<u8> = v["inputs"]["bytes"].as_array().map(|a| a.iter().map(|x| x.as_u64().unwrap_or(0) as u8).collect()).unwrap_or_default();
         fuzz_input_holds(&bytes)
+    } else if v["check"] == "cli-budget" {
+        witness(&v["inputs"])
     } else if v["check"] == "binary" {
         let dir = crate::drive::Scratch::new("c04r");
         let p = dir.write("in.st", text.as_bytes()).to_string_lossy().to_string();
